@@ -596,5 +596,5 @@ Proof.
 Qed.
 
 Lemma params_valid_range p : params_valid p = true ->
-  0 < p_fee p < P18 /\ 0 <= p_cdenom p /\ 0 < p_camt p /\ 0 < p_tax p < P18 /\ 0 <= p_ufee p < P18.
+  0 < p_fee p < P18 /\ 0 <= p_cdenom p /\ 0 < p_camt p < 2 ^ 255 /\ 0 < p_tax p < P18 /\ 0 <= p_ufee p < P18.
 Proof. unfold params_valid. intros H. b2p H. lia. Qed.
